@@ -574,7 +574,6 @@ static void sc_async(void) {
   coap_resource_t *r = mkres("sep", h_sep, NULL);
   if (r) coap_add_resource(W.srv, r);
   one_request("a", COAP_MESSAGE_CON, COAP_REQUEST_CODE_GET, "sep");
-  R("reg=%d", n_async_reg);
   if (W.n_resp && W.last_code == COAP_RESPONSE_CODE_CONTENT &&
       (W.last_len != 4 || W.last_hash != fnv((const uint8_t *)"late", 4)))
     R("bad=wrong-payload");
